@@ -33,6 +33,10 @@ def run(ctx):
     p = a.p
     V, W = a.validators, a.writers
     vf = p.func("_validation_py:_validate")
+    # the rules below read the dispatch *in* _validate: when it only hands over to something else (an object that does
+    # the dispatch in a method, with its own table) nothing here is a positive identification of a defect
+    if not any(isinstance(n, ast.Name) and n.id == "VALIDATORS" for n in ast.walk(vf.node)):
+        raise AnalysisError("_validate no longer dispatches through VALIDATORS itself (the dispatch is done elsewhere): the validator rules do not follow it")
 
     # ---- R1 totality -------------------------------------------------------------------------
     ctx.rule("C10.R1", "keys(VALIDATORS) >= keys(WRITERS); by-name fallback; only _validate calls a table entry", floor=17)
